@@ -199,10 +199,9 @@ func (c *Chain) randomLocalActivity(r *hlib.Rand, st *localState) {
 			ch = append(ch, proposaltypes.NewParamChange(rvtypes.ModuleName, string(rvtypes.KeyPerBlockReward), rew))
 		}
 		c.Propose("params-rvesting", proposaltypes.NewParameterChangeProposal("t", "d", ch), r.Bool())
-		if !st.poolFunded { // fund the vesting pool so that BeginBlocker has something to move
+		if r.Chance(1, 3) { // a module account is a blocked address (app.BlockedAddrs): refused on every node
 			pool := c.App.AccountKeeper.GetModuleAddress(rvtypes.ModuleName)
-			c.CosmosTx("bank-send", c.Key, TxOpt{}, banktypes.NewMsgSend(c.Acc, pool, sdk.NewCoins(sdk.NewCoin(bondDenom, sdk.NewInt(int64(50+r.Intn(300)))), sdk.NewCoin("ufoo", sdk.NewInt(7)))))
-			st.poolFunded = true
+			c.CosmosTx("bad:blocked-address", c.Key, TxOpt{}, banktypes.NewMsgSend(c.Acc, pool, sdk.NewCoins(sdk.NewCoin(bondDenom, sdk.NewInt(5)))))
 		}
 		c.PassVotingPeriod()
 	case 8: // staking system contract -> adapter/staking hook -> MsgDelegate / MsgUndelegate / withdraw
@@ -271,7 +270,6 @@ type localState struct {
 	erc20s         []common.Address
 	registered     []common.Address
 	coinRegistered bool
-	poolFunded     bool
 }
 
 func scenarioSingle(r *hlib.Rand, steps int) []*Chain {
@@ -341,6 +339,9 @@ func updateClient(c, o *Chain, key *ethsecp256k1.PrivKey) Obs {
 	o.EndCommit()
 	o.EndCommit()
 	syncTime(c, o)
+	if c.inBlock && c.Cur.Time.Before(o.Cur.Time) && !c.Rand.Chance(1, 12) {
+		c.EndCommit() // otherwise the header is "from the future" for the block in progress (kept, rarely, as a rejected update)
+	}
 	h := c.UpdateHeaderFor(o)
 	if h == nil {
 		return Obs{Code: 999}
@@ -424,8 +425,9 @@ func relay(r *hlib.Rand, src, dst *Chain, packet []byte, st *pairStats) {
 type pairStats struct{ recvOK, recvRejected, ackOK int }
 
 func scenarioPair(r *hlib.Rand, steps int, viaGov bool) ([]*Chain, pairStats) {
-	a := NewChain(r.Fork(1), "teleport_9000-10", 1+r.Intn(2))
-	b := NewChain(r.Fork(2), "teleport_9000-11", 1+r.Intn(2))
+	key := keyFrom(r)
+	a := NewChainAt(r.Fork(1), "teleport_9000-10", 1+r.Intn(2), startTime, key)
+	b := NewChainAt(r.Fork(2), "teleport_9000-11", 1+r.Intn(2), startTime, key)
 	var st pairStats
 	if !setupClients(r, a, b, viaGov) {
 		return []*Chain{a, b}, st
